@@ -979,7 +979,9 @@ SPEC = harness.Spec(
           "position, then Hypothesis composes 1-3 statements (calls nested to depth 2, if/while/for bodies, "
           "statements outside the with block). Each program is compiled with compile_function() and the verdict "
           "compared with the oracle computed from the case structure; accepted programs have the `unitary` "
-          "metadata of all FuncDefns checked. non-trivial = required flags non-empty and the program has a call "
+          "metadata of all FuncDefns checked. About a tenth of the enumerated product and a third of the composed "
+          "programs give main and/or a declared/defined callee a generic parameter (type variable, array of "
+          "nat-variable length, comptime nat). non-trivial = required flags non-empty and the program has a call "
           "mixing qubit and classical arguments, a nested call, or a call in an if/while condition; distinct = "
           "distinct case structure"),
     assumptions=[
@@ -996,8 +998,11 @@ SPEC = harness.Spec(
         "a classical subscript xs[0] is a subscripted place too; loops/assignments without any quantum call are "
         "still rejected under dagger (tests/error/modifier_errors/flag_dagger_assign, flag_loop)",
         "`for` under non-dagger contexts only calls classical iterator functions and is allowed",
-        "tensor calls, comptime functions, nested function definitions, generic callees, owned qubit arguments and "
-        "tuples containing qubits are outside the generated domain",
+        "generic parameters are classical (type variable instantiated with int, int array of nat-variable length, "
+        "comptime nat) apart from qubit arrays of nat-variable length; every generic callee is instantiated once, "
+        "so it has one FuncDefn, which must record the declared flags",
+        "tensor calls, comptime functions, nested function definitions, linear type variables, owned qubit "
+        "arguments and tuples containing qubits are outside the generated domain",
     ],
     shards={"quick": 16, "thorough": 16},
     budget_s={"quick": 90, "thorough": 900},
